@@ -167,3 +167,48 @@ def run(ctx):
                     ctx.violation(R4, 'memory-builder:' + g.path, '%s builds an FST in memory (%s) before writing it out: the heap holds the whole output, which grows with the input' % (g.path.rsplit('::', 1)[-1], cal.rsplit('::', 2)[-2]), fn=g, at=t.get('span'))
                 elif cal.endswith('::new'):
                     ctx.ok(R4, 'file-builder:%s#%s' % (g.path, t.get('span')), None, g, t.get('span'))
+    # capacity requests in builder code are sized by the key at hand or by literals, never by how much has been built so far
+    R5 = ctx.rule('R13.5', 'builder buffers are not sized by the number of keys / bytes built so far', floor=1)
+    SIZED = ('Vec::<T>::with_capacity', 'Vec::<T, A>::reserve', 'Vec::<T, A>::reserve_exact', 'Vec::<T, A>::resize', 'String::with_capacity', 'vec::from_elem')
+    from paths import explore as _explore
+    from rules.common import path_calls as _pc
+    from sym import walk as _walk, fmt as _fmt
+    n5 = 0
+    for g in lib.fn_list:
+        if g.from_expansion or not g.path.startswith(('raw::build::', '<raw::build::', 'raw::registry::')):
+            continue
+        if not any((g.callee(t) or '').endswith(SIZED) for _, t in g.calls()):
+            continue
+        seen5 = set()
+        for p in _explore(g, max_visits=1, havoc=True, limit=300):
+            for (k, bid, callee, args, t) in _pc(p, expand=False):
+                if not isinstance(callee, str) or not callee.endswith(SIZED) or bid in seen5:
+                    continue
+                seen5.add(bid)
+                n5 += 1
+                size = args[-1] if not callee.endswith('resize') else args[1]
+                grows = [x for x in _walk(size) if (x[0] == 'field' and x[2] in ('len', 'last_addr') and x[1][0] == 'param' and x[1][2] == 1 and 'raw::build::Builder<' in g.local_ty(1)) or
+                         (x[0] == 'call' and isinstance(x[1], str) and x[1].endswith(('CountingWriter::<W>::count', 'Builder::<W>::bytes_written')))]
+                ctx.check(R5, not grows, 'sized:%s#%s' % (g.path, t.get('span')), '%s requests a capacity that grows with what has been built so far (%s): the builder\'s memory is then proportional to the number of keys, not to the key length' % (
+                    g.path.rsplit('::', 1)[-1], _fmt(size)[:60]), fn=g, at=t.get('span'))
+    if n5 == 0:
+        ctx.ok(R5, 'sized:none', None, None, None)
+    # the batch size bounds what the unsorted build holds in memory: it is a constant of the run, not something the batching loop adjusts
+    if b is not None:
+        R6 = ctx.rule('R13.6', 'fst-bin: the batching loop compares the batch against a bound that does not change while batching', floor=1)
+        n6 = 0
+        for g in b.fn_list:
+            if not (g.kind == 'Closure' and g.path.startswith('merge::batcher::')):
+                continue
+            verdicts = set()
+            for p in _explore(g, max_visits=1, havoc=True, limit=3000):
+                for d in p.decisions:
+                    e = d[2]
+                    if e[0] == 'bin' and e[1] in ('Ge', 'Gt', 'Lt', 'Le', 'Eq', 'Ne') and any(x[0] == 'call' and isinstance(x[1], str) and x[1].endswith('::len') for x in _walk(e)):
+                        other = e[3] if any(x[0] == 'call' and isinstance(x[1], str) and x[1].endswith('::len') for x in _walk(e[2])) else e[2]
+                        verdicts.add('varies' if any(x[0] in ('havoc', 'phi') for x in _walk(other)) else 'fixed')
+            if verdicts:
+                n6 += 1
+                ctx.check(R6, verdicts == {'fixed'}, 'batch-bound:' + g.path, 'the bound a batch is compared with is updated inside the batching loop: batches (and with them the memory of the build) grow with the input', fn=g)
+        if n6 == 0:
+            ctx.undecided(R6, 'batch-bound', 'no size test recognised in the batching loop')
